@@ -286,6 +286,9 @@ def do_comp(ex, node, st, kind):
     rng = z3.And(i >= 0, i < L)
     if conds:
         raise OutOfReach("filter comprehension over symbolic sequence")
+    if kind == "list" and isinstance(getattr(body, "term", None), z3.ExprRef) and isinstance(getattr(el, "term", None), z3.ExprRef) \
+            and body.term.eq(el.term) and S.sort_of(body) is src.elem:
+        return VSeq(src.term, src.elem, "list")  # [f(s) for s in X] with f the identity on X's elements (e.g. frozenset(s) of a frozenset): a copy of X
     if kind == "gen":
         # consumer decides (any/all/sum/tuple); hand back a lazy description
         v = GenDesc(src, i, body, rng)
